@@ -20,6 +20,37 @@ def _exec(args):
     return out
 
 
+def _acts_of_cfg(cfg):
+    """the action kinds an instance enables (Acts <- ActsXxx in the cfg, the set in MC_System.tla), as the names that occur in behaviours"""
+    import re
+    txt = open(os.path.join(common.MC, cfg)).read()
+    m = re.search(r'Acts\s*<-\s*(\w+)', txt)
+    src = open(os.path.join(common.MC, 'MC_System.tla')).read()
+    defs = {k: v for k, v in re.findall(r'^(Acts\w+)\s*==\s*(.+)$', src, re.M)}
+
+    def expand(expr):
+        names = set(re.findall(r'"(\w+)"', expr.split('\\ {')[0] if '\\ {' in expr else expr))
+        for ref in re.findall(r'\b(Acts\w+)\b', expr):
+            names |= expand(defs[ref])
+        for minus in re.findall(r'\\ \{([^}]*)\}', expr):
+            names -= set(re.findall(r'"(\w+)"', minus))
+        return names
+    names = expand(defs[m.group(1)])
+    return {{'New1': 'New', 'BinOpSub': 'BinOp'}.get(n, n) for n in names}
+
+
+def vacuity_guard(chk, cfg, behs, label):
+    """every action kind the instance enables must occur in its transition cover (an action never taken means the properties about
+    it were never exercised): machinery failure otherwise; the counts go into the evidence"""
+    from collections import Counter
+    cnt = Counter(a['act'] for h in behs for a in h[-1:])          # the LAST action of each behaviour = the transition it covers
+    want = _acts_of_cfg(cfg)
+    chk.extra.setdefault('action_cover', {})[label] = dict(sorted(cnt.items()))
+    missing = sorted(want - set(cnt))
+    if missing:
+        raise core.Machinery('instance %s never takes action(s) %s' % (cfg, missing))
+
+
 def behaviours_from(printed):
     seen, out = set(), []
     for p in printed:
@@ -170,6 +201,8 @@ def run(chk):
     rows, r = chk.model_check('MC_System.tla', 'MC_System_%s_%s.cfg' % (pid, tier), label='MC_System', heap='12g', timeout=3000,
                               sample_target=(300000 if tier == 'thorough' else None), seed=None, keep_out=False)
     behs = behaviours_from(r.printed)
+    if tier == 'quick':
+        vacuity_guard(chk, 'MC_System_%s_%s.cfg' % (pid, tier), behs, 'main instance')
     chk.extra['model'] = {'distinct_states': r.distinct, 'transitions': r.generated, 'behaviours_in_cover': getattr(r, 'printed_total', len(behs)),
                           'cover_sample': '1/%d' % getattr(r, 'sample_mod', 1)}
     r.printed = []
@@ -194,7 +227,10 @@ def run(chk):
     # transition cover is replayed like the main one (thorough: all of it; quick: a seeded slice)
     _, rx = chk.model_check('MC_System.tla', 'MC_System_X_%s.cfg' % tier, label='MC_System (extension instance)', heap='12g', timeout=3000,
                             sample_target=(150000 if tier == 'thorough' else None), seed=None, keep_out=False)
-    behx = _maximal(behaviours_from(rx.printed))
+    bx_all = behaviours_from(rx.printed)
+    if tier == 'quick':
+        vacuity_guard(chk, 'MC_System_X_%s.cfg' % tier, bx_all, 'extension instance')
+    behx = _maximal(bx_all)
     rx.printed = []
     if tier == 'quick':
         # (a seeded slice of the cover per run: a tenth for C20, a twentieth for C02 / C04; the thorough tier replays all of it)
